@@ -6,16 +6,15 @@ THEOREMS = ["Props.C03." + t for t in [
     "grammar_wf", "peg_total", "parse_total", "grammar_captures", "tree_conforms", "tree_in_bounds", "walker_no_panic",
     "field_ids", "field_ids_written", "enum_values",
     "annotations_append", "annotations_keys_first_occurrence",
-    "literal_unescape", "quote_kind_independent", "skip_absorbs_ws", "skip_absorbs", "list_separator_ignored", "skip_nodes_ignored",
+    "literal_unescape", "double_text", "quote_kind_independent", "skip_absorbs_ws", "skip_absorbs", "list_separator_ignored", "skip_nodes_ignored",
 ]]
 
 PARTIAL = [
     "layout_independent: proved per token rule only (skip_absorbs: Skip absorbs every whitespace/comment string of the three "
     "styles; list_separator_ignored; skip_nodes_ignored; quote_kind_independent); Indent* after tokens, SkipLine and the "
-    "composition over whole documents are covered by the oracle only; false for exponent doubles and non-decimal field ids (witnesses in Props/C03.lean)",
+    "composition over whole documents are covered by the oracle only",
     "literal_unescape: stated for contents without a backslash before the quote character or a backslash and not ending in a "
     "backslash (Plain); the excluded shapes have negative witnesses",
-    "field_ids_written: decimal spellings within int32 only; hex/octal/out-of-range spellings are read wrongly by the code (witnesses)",
 ]
 
 
